@@ -121,6 +121,7 @@ class Interp:
         self.stores = 0
         self.base_facts = ta.Facts()
         self.opaque_elems = {}          # opaque element name -> rhs text
+        self.fn_args = {}               # opaque function factor -> (fn, argument, indices)
 
     # ------------------------------------------------------------------
     def err(self, node, msg):
@@ -1120,7 +1121,17 @@ class Interp:
             if isinstance(a, Expr):
                 nf = ta.normal(a)
                 free = sorted(a.free())
-                return Expr.factor("%s{%s}" % (short, ";".join(ta.show_normal(nf, 50))), tuple(free))
+                nm = "%s{%s}" % (short, ";".join(ta.show_normal(nf, 50)))
+                self.fn_args[nm] = (short, a, tuple(free))
+                return Expr.factor(nm, tuple(free))
+            if isinstance(a, Array):
+                # elementwise function of an array: opaque per element
+                nfk = ta.normal(a.template)
+                nm = "%s{%s}" % (short, ";".join(ta.show_normal(nfk, 50)))
+                phs = tuple(Array.ph(k) for k in range(a.rank))
+                amb = tuple(sorted(a.template.free() - set(phs)))
+                self.fn_args[nm] = (short, a, phs + amb)
+                return Array(a.rank, Expr.factor(nm, phs + amb), origin="computed")
         if short == "inv" and len(args) == 1:
             return Unknown("matrix inverse")
         return Unknown("external call " + name)
